@@ -37,6 +37,8 @@ CATALOGUE: dict[str, list] = {
     "emptyset": ["{", "}"],
     "inherit": ["{", "inherit", "a", "b", ";", "c", "=", H(0), ";", "}"],
     "inheritfrom": ["{", "inherit", "(", H(0), ")", "a", "b", ";", "}"],
+    "inheritq": ["{", "inherit", '"', GLUE, "k-k", GLUE, '"', "b", ";", "c", "=", H(0), ";", "}"],  # quoted inherited name
+    "inheritfromq": ["{", "inherit", "(", H(0), ")", "a", '"', GLUE, "k k", GLUE, '"', "b", ";", "}"],
     # lists
     "list": ["[", H(0), H(1), "]"],
     "list1": ["[", H(0), "]"],
@@ -128,9 +130,11 @@ GAPS_FULL = [
     " /* c§ */\n", "\n/* c§ */\n", "\n/* m§\n   n */\n", "\n/** d§ */\n",
     " /* c§ */ ", "/*c§*/", " /* m§\n   n */ ", " /** d§ */ ",
     " # é✓§\n", "\n# c§\n# e§\n",
+    " /* c§ */ # e§\n",  # a block comment and a line comment in the same gap
+    "# c§\n", "/* c§ */\n",  # comment glued to the previous token / first thing in the file
 ]
 # representative subset: one per layout class
-GAPS_REP = [" ", "", "  ", "\n", "\n\n\n", " # c§\n", "\n# c§\n", "\n/* c§ */\n", " /* c§ */ ", "\n/* m§\n   n */\n"]
+GAPS_REP = [" ", "", "  ", "\n", "\n\n\n", " # c§\n", "\n# c§\n", "\n/* c§ */\n", " /* c§ */ ", "\n/* m§\n   n */\n", "# c§\n"]
 DEFAULT_GAP = " "
 
 # R4 - atom simplification: each atom may be replaced by a simpler atom of the same layout
@@ -152,6 +156,9 @@ SIMPLER = {
     "/*c§*/": [" /* c§ */ "],
     " /* m§\n   n */ ": [" /* c§ */ "],
     " /** d§ */ ": [" /* c§ */ "],
+    " /* c§ */ # e§\n": [" # c§\n", " /* c§ */\n"],
+    "# c§\n": [" # c§\n"],
+    "/* c§ */\n": [" /* c§ */\n"],
 }
 
 
